@@ -96,9 +96,12 @@ class Siblings:
             cfg["commit_message"] = rng.choice(["bump {old_version} -> {new_version}", "release {new_version}",
                                                 "chore: version {new_version_pep440} (was {old_version_pep440})",
                                                 "release {new_version} #minor [skip ci]", "bump; {new_version} ; done",
-                                                "v{new_version} 100% = ok: yes"])
+                                                "v{new_version} 100% = ok: yes",
+                                                # quote characters at the ends of a value: stripped after parsing, whatever the syntax said
+                                                "release '{new_version}'", "'{new_version}' is out", "say \"{new_version}\""])
         if rng.random() < 0.5:
-            cfg["tag_message"] = rng.choice(["rel {new_version}", "{new_version}", "", "tag {new_version} # stable", "a;b {new_version}"])
+            cfg["tag_message"] = rng.choice(["rel {new_version}", "{new_version}", "", "tag {new_version} # stable", "a;b {new_version}",
+                                             "tag '{new_version}'"])
         if rng.random() < 0.3:
             cfg["pre_commit_hook"] = "pre.sh"
         if rng.random() < 0.3:
